@@ -116,7 +116,7 @@ int main(int argc, char **argv)
 		arm(B[i], 7, 7);
 		double r = Random();
 		after("Random");
-		sx_evals++;
+		sx_evals++, sx_tick();
 		sx_nontrivial++;
 		if(!(r >= 0.0 && r < 1.0))
 			bad("Random", "result outside [0,1)", r);
@@ -136,7 +136,7 @@ int main(int argc, char **argv)
 				arm(B[i], 7, 7);
 				int r = RandomRange(mn, mx);
 				after("RandomRange");
-				sx_evals++;
+				sx_evals++, sx_tick();
 				if(r < mn || r > mx)
 					bad("RandomRange", "result outside [min,max]", r);
 			}
@@ -156,7 +156,7 @@ int main(int argc, char **argv)
 						arm(B[i], B[j], 7);
 						int r = RandomRangeNonUniform(xs[xi], mn, mx);
 						after("RandomRangeNonUniform");
-						sx_evals++;
+						sx_evals++, sx_tick();
 						if(r < mn || r > mx)
 							bad("RandomRangeNonUniform", "result outside [min,max]", r);
 					}
@@ -166,7 +166,7 @@ int main(int argc, char **argv)
 		arm(B[i], 7, 7);
 		double r = Poisson();
 		after("Poisson");
-		sx_evals++;
+		sx_evals++, sx_tick();
 		if(!(isfinite(r) && r >= 0))
 			bad("Poisson", "not finite and non-negative", r);
 		arm(B[i], 7, 7);
@@ -181,7 +181,7 @@ int main(int argc, char **argv)
 			arm(B[i], B[j], 0x9e3779b97f4a7c15ULL);
 			double r = Normal();
 			after("Normal");
-			sx_evals++;
+			sx_evals++, sx_tick();
 			if(!isfinite(r))
 				bad("Normal", "not finite", r);
 		}
@@ -202,7 +202,7 @@ int main(int argc, char **argv)
 					arm(B[i], B[j], B[k]);
 					double r = Gamma(ias[q]);
 					after("Gamma");
-					sx_evals++;
+					sx_evals++, sx_tick();
 					sx_nontrivial += (i < 3 || j < 3);
 					if(!(isfinite(r) && r >= 0))
 						bad("Gamma", "not finite and non-negative", r);
@@ -220,7 +220,7 @@ int main(int argc, char **argv)
 					arm(B[i], B[j], 0x9e3779b97f4a7c15ULL);
 					unsigned r = Zipf(skews[s], limits[l]);
 					after("Zipf");
-					sx_evals++;
+					sx_evals++, sx_tick();
 					if(r < 1 || r > limits[l])
 						bad("Zipf", "result outside [1,limit]", r);
 				}
